@@ -37,4 +37,10 @@ LEVEL_TEXT = {
         "note": "The reference window and the per-goroutine attribution of counter increments are trusted. Sum-of-increments under real parallelism is the business of the free-running race tier (C14). One genuine defect found and fixed (cleaner dropped live samples).",
         "technique": "deterministic simulation: fake clock + scheduled cleaner against a reference window; recording Stats/Logger against the sent response under seeded interleavings",
     },
+    "C16": {
+        "text": "The stream facet of the property is decided by simulating the I/O environment of cdb.Dump and cdb.Make: seeded legal segmentations of their readers and one injected read/write error per faulty run, on real files produced by the package's writer (up to 30000 pairs in the thorough tier). Fault-free runs must round-trip byte-identically and list the pairs in order; faulty runs may fail but never return nil with wrong data. The lookup facet (every key's values in order, then EOF; absent keys) is piggy-backed input generation and is labelled as such. Evidence, not proof.",
+        "design_ref": "§5.12",
+        "note": "No concurrency in this property, hence no scheduler. Trusts the reference listing built from the written pairs. One genuine defect found and fixed (Dump used bare Read).",
+        "technique": "deterministic simulation of I/O streams (seeded segmentation + injected stream errors) with a byte-identical round-trip oracle",
+    },
 }
